@@ -153,6 +153,8 @@ def evaluate(kind, case, acc):
             break
         # the same tag through the file-name entry point
         rw = spec.wheel_compatibility(f"x-1-py3-none-{t}.whl")
+        if rw == r:
+            rw = spec.wheel_compatibility(f"x-1-20240229-py3-none-{t}.whl")  # with a build tag
         if rw != r:
             acc.fail(kind, f"{fam_label}:wheel_compatibility-differs-from-compatibility", case, expected=r, got={"tag": t, "wheel_compatibility": rw})
             break
